@@ -447,7 +447,7 @@ def split_top_commas(s):
 def sanitize(s):
     s = norm_name(s) if not re.match(r'^\w+$', s) else s
     s = s.replace('::', '__')
-    s = re.sub(r'\(lambda at [^:]*/([^/:]+):(\d+):(\d+)\)', lambda m: 'lambda_%s_%s_%s' % (re.sub(r'\W', '_', m.group(1)), m.group(2), m.group(3)), s)
+    s = re.sub(r'\((?:lambda|anonymous class) at [^:]*/([^/:]+):(\d+):(\d+)\)', lambda m: 'lambda_%s_%s_%s' % (re.sub(r'\W', '_', m.group(1)), m.group(2), m.group(3)), s)
     s = s.replace('<', '_L_').replace('>', '_R').replace(',', '_').replace('*', 'P').replace('&', 'Ref')
     s = re.sub(r'[^A-Za-z0-9_]', '_', s)
     s = re.sub(r'_+', '_', s).strip('_')
